@@ -1,4 +1,4 @@
-"""Registry: property id -> function(pid, tier, seed, replay_path) -> exit code."""
+"""Registry of the checks: property id -> units, rule, level, manifest metadata."""
 import os
 import skv, runner
 from skv import LibCfg
@@ -8,10 +8,13 @@ SHIPPED = LibCfg(name="shipped")   # gcc -O3 -std=c99, -msse2/-mavx2 per file, h
 
 MODEL_ASSUME = [
     "reference models in harness/ref.hpp are correct transcriptions of the SKINNY / MANTIS specifications "
-    "(self-tested on the ten published vectors and the inverse law at every start; cross-checked against "
-    "drafts/refmodel.py by bin/setup)",
+    "(self-tested on the ten published vectors and the inverse law at every start; cross-checked against the "
+    "independent Python models drafts/refmodel.py by bin/setup)",
+]
+BUILD_ASSUME = [
     "library compiled from /repo's working tree with the shipped flags (gcc -O3 -std=c99, -msse2/-mavx2 per file) "
-    "plus -DSKINNY_C_VERIF; back ends pinned through the _skinny_verif_vec_limit hook",
+    "plus -DSKINNY_C_VERIF; back ends pinned through the _skinny_verif_vec_limit hook, which can only lower what "
+    "the CPU probe reports",
 ]
 
 
@@ -23,17 +26,59 @@ def known_for(pid):
     return [k for k in skv.known_findings() if k["property"] == pid]
 
 
-def c05(pid, tier, seed, replay):
-    u = Unit("c05", "c05.cpp", SHIPPED, cases=scale(tier, 2500, 60000), shards=16, max_size=100)
+PROPS = {}
+
+
+def prop(pid, **kw):
+    PROPS[pid] = kw
+
+
+# ----------------------------------------------------------------------------- C05
+prop("C05",
+     units=lambda tier: [Unit("c05", "c05.cpp", SHIPPED, cases=scale(tier, 2500, 60000), shards=16)],
+     level="exploration",
+     rule=("structured CTR programs (init; optional early set_counter; key/tweak set-up; 1-3 segments of "
+           "[set_counter]? chunk*) for Skinny-128/64 plain and tweaked and Mantis-5..8 on every back end, compared "
+           "byte for byte with in xor E(c+i) from the specification model, plus re-application restoring the input; "
+           "a case is non-trivial if its stream crosses a vector-batch boundary at a ragged cut, or a carry runs "
+           "through >= 2 counter bytes, or the counter wraps, or the post-init default / a short / a NULL counter is "
+           "used; distinct = distinct serialised programs among those"),
+     assumptions=MODEL_ASSUME + BUILD_ASSUME,
+     technique="property-based testing (rapidcheck): generated CTR call programs vs. specification model, shrinking to a replay file",
+     text=("Generated-input search: every generated CTR program must reproduce in xor E(c+i) of an independent "
+           "specification model on every back end; counters, lengths and cuts are biased towards carries, wrap-around, "
+           "short/NULL/default counters and ragged batch boundaries. Sampling, not proof: 2^128+ inputs cannot be enumerated."),
+     note="trusts the reference model (KAT-checked, cross-checked with a second model) and the back-end pin hook",
+     design_ref="DESIGN.md#c05")
+
+
+# ----------------------------------------------------------------------------- generic entry points
+def run(pid, tier, seed, replay):
+    p = PROPS[pid]
+    if "custom" in p:
+        return p["custom"](pid, tier, seed, replay)
+    units = p["units"](tier)
     if replay:
-        return runner.replay_only(pid, [u], replay)
-    rule = ("structured CTR programs (init; optional early set_counter; key/tweak set-up; 1-3 segments of "
-            "[set_counter]? chunk*) for Skinny-128/64 plain and tweaked and Mantis-5..8 on every back end, compared "
-            "byte for byte with in xor E(c+i) from the specification model, plus re-application restoring the input; "
-            "a case is non-trivial if its stream crosses a vector-batch boundary at a ragged cut, or a carry runs "
-            "through >= 2 counter bytes, or the counter wraps, or the post-init default / a short / a NULL counter is "
-            "used; distinct = distinct serialised programs among those")
-    return runner.run_units(pid, [u], tier, seed, "exploration", rule, MODEL_ASSUME, known=known_for(pid))
+        return runner.replay_only(pid, units, replay)
+    return runner.run_units(pid, units, tier, seed, p["level"], p["rule"], p["assumptions"],
+                            known=known_for(pid), extra_cov=p.get("extra_cov"))
 
 
-REGISTRY = {"C05": c05}
+REGISTRY = {pid: run for pid in PROPS}
+
+
+def harness_jobs():
+    """(source, compiler, flags) of every harness translation unit used by any unit of any tier."""
+    jobs = {}
+    for pid, p in PROPS.items():
+        if "units" not in p:
+            continue
+        for tier in ("quick", "thorough"):
+            for u in p["units"](tier):
+                if u.builder:
+                    continue
+                for h in u.harness:
+                    ccomp = "gcc" if "g++" in u.cxx else "clang"
+                    cxx = u.cxx if h.endswith(".cpp") else ccomp
+                    jobs[(h, cxx, tuple(u.hflags))] = (h, cxx, list(u.hflags))
+    return list(jobs.values())
